@@ -362,6 +362,10 @@ func genC09(seed uint64, idx int) *Plan {
 	base.Chunks, base.ReadBuf, base.Trailer = nil, 0, nil
 	base.ExtraIn = max(base.ExtraIn, 2)
 	k := &KeySetPlan{Base: *base, WithRetry: r.IntN(2) == 0}
+	if idx%16 == 6 || idx%16 == 12 {
+		// the target's config carries a (non-mandatory) extension of its own
+		k.Base.Target.ExtraExt = true
+	}
 	if r.IntN(5) == 0 {
 		k.Unlisted = true
 		k.Base.Target.Suites = k.Base.Target.Suites[:1+r.IntN(min(2, len(k.Base.Target.Suites)))]
